@@ -1,6 +1,6 @@
 (* C07  Expression trees follow the C/C++ operator grammar: property statements only. *)
 From Coq Require Import List NArith Bool.
-From CV Require Import Ast.Defs Ast.Main1 Ast.Main2 Ast.NoDecl Ast.Main3.
+From CV Require Import Ast.Defs Ast.Main1 Ast.Main2 Ast.NoDecl Ast.Main3 Ast.Main4.
 Import ListNotations.
 Local Open Scope N_scope.
 
@@ -72,6 +72,37 @@ Example C07_stage3_premises :
                        (EBin 0 BLAnd (EBin 0 BAnd (EPre 0 PMinus (EPre 0 PMinus (EId 0 2))) (EPre 0 PAddr (EId 0 3)))
                           (EPre 0 PAddr (EId 0 0))))) in
   frag3 e = true /\ wf e = true /\ labels_ok e = true /\
+  parse false (render e) = Some (tree_of e) /\ parse true (render e) = Some (tree_of e).
+Proof. vm_compute. repeat split; reflexivity. Qed.
+
+(* PARTIAL (stage 4).  Fragment [frag4] = every constructor of [expr] except ?: and casts: stage 3 + postfix
+   ++ --, calls f ( ) / f ( args ), subscripts and member access (compilePrecedence2's loop: call vs grouping
+   parenthesis from the previous token, jump to the link of '(' and '[', '.' with compileScope).
+   Premises: [wf e] (additionally: postfix ++/-- not directly on a postfix ++/--, the callee is not a number
+   or a postfix ++/-- expression - constraint violations in C and C++), [labels_ok e], and
+   [decl_like (render e) = false]: with calls a ')' can be followed by '(' , so the function-pointer-declaration
+   heuristic  X ) ( name ) =  of compileTerm is excluded explicitly (it only fires on an empty operand stack at
+   depth 0, which the invariant does not track).
+   Missing for the full language: ?: (prepareTernaryOpForAST) and casts (iscast is not modelled). *)
+Theorem C07_parse_render_stage4_partial :
+  forall (cpp : bool) (e : expr),
+    frag4 e = true -> wf e = true -> labels_ok e = true -> decl_like (render e) = false ->
+    parse cpp (render e) = Some (tree_of e).
+Proof. exact parse_render_stage4. Qed.
+Print Assumptions C07_parse_render_stage4_partial.
+
+(* the premises are inhabited:
+   r = f ( a , - b ) [ 1 ] . x ++ + ( g ) ( c ) . y -- * ++ * p [ a , 2 ] , ( * f ) ( ) ( ! s . n ) *)
+Example C07_stage4_premises :
+  let e := canon
+    (EComma 0
+       (EAsg 0 AEq (EId 0 14)
+          (EBin 0 BAdd
+             (EPost 0 QInc (EMem 0 0 (EIdx 0 (ECall 0 (EId 0 8) (EComma 0 (EId 0 0) (EPre 0 PMinus (EId 0 1)))) (ENum 0 1)) 11))
+             (EBin 0 BMul (EPost 0 QDec (EMem 0 0 (ECall 0 (EPar 0 (EId 0 9)) (EId 0 2)) 12))
+                (EPre 0 PInc (EPre 0 PDeref (EIdx 0 (EId 0 4) (EComma 0 (EId 0 0) (ENum 0 2))))))))
+       (ECall 0 (ECall0 0 (EPar 0 (EPre 0 PDeref (EId 0 8)))) (EPre 0 PNot (EMem 0 0 (EId 0 6) 13)))) in
+  frag4 e = true /\ wf e = true /\ labels_ok e = true /\ decl_like (render e) = false /\
   parse false (render e) = Some (tree_of e) /\ parse true (render e) = Some (tree_of e).
 Proof. vm_compute. repeat split; reflexivity. Qed.
 
